@@ -208,14 +208,15 @@ CHECKS = {
     ),
     'C17': dict(
         category='other',
-        text='Decides the memory-safety clause for the enumerated scan idioms, not termination: CU1 abstract interpretation of every '
+        text='Decides the memory-safety clause for the enumerated scan idioms and two structural termination clauses (LP1, LP2 below), not termination in general: CU1 abstract interpretation of every '
              'path of the 11 scan functions in the safe-window domain (bytes known to precede the terminator per cursor, read/write '
              'cursor distance, flag locals): no dereference at or beyond the terminator by look-ahead or multi-byte strides, no cursor '
              'moved past one-past-the-end, in-place decoders never write ahead of the reader or over the terminator (so they never '
              'produce more bytes than the input had); CU3 definite assignment of every scalar/pointer local in the parser units, goto '
              'edges included.',
-        note='String parameters of the site table are assumed NUL-terminated; termination (e.g. mutually referential ${} variables) is '
-             'not decidable here and not claimed; count-bounded index loops, computed indexes and strlen-based tails are outside the '
+        note='String parameters of the site table are assumed NUL-terminated; termination in general is '
+             'not claimed (LP1 reports certain hangs only; LP2 demands a budget of rewrite-and-rescan loops, which is what bounds the '
+             'mutually referential ${} variables and self-including files); count-bounded index loops, computed indexes and strlen-based tails are outside the '
              'domain and listed as not analysed.',
         technique='static abstract interpretation (safe-window cursor domain with flag partitioning) over per-function CFGs; definite-assignment dataflow',
         design_ref='3-F, 4-C17',
@@ -419,3 +420,9 @@ CHECKS['C07'].update(text=CHECKS['C07']['text'] + ' I10: writer/reader agreement
 CHECKS['C11'].update(text=CHECKS['C11']['text'] + ' I12 (ring-walk index compared with maxslots before it subscripts the slot array) and DL3 '
                      '(insert position sampled after the last call that may free entries) as well.')
 CHECKS['C14'].update(text=CHECKS['C14']['text'] + ' A-macro-path recognises a typed local that holds the mutex operand.')
+CHECKS['C17'].update(text=CHECKS['C17']['text'] + ' Termination clauses: LP1 no stationary cycle - every cycle through a loop head of the '
+                     'parser units passes a write to something a condition of the loop reads, or an impure call (path conditions '
+                     'tracked; a report is a certain hang, silence is not a termination proof). LP2 a loop that replaces the buffer it '
+                     'scans by a text computed from that buffer and scans again (${} expansion, @INCLUDE processing) is bounded by '
+                     'construction: every cycle through the rewrite updates an integer budget monotonically and a test of the budget '
+                     'has an edge from which the rewrite is unreachable.')
